@@ -8,6 +8,9 @@
      FgStep(p)    ONE iteration of the waitpid(-1) loop of wait_fg_job, consuming the
                   report of child p (any reportable child may be picked)
      FgEchild     the loop's ECHILD exit
+     FgPollEmpty  the non-blocking waitpid that wait_fg_job issues once every member has settled
+                  and some member's latest report says stopped finds nothing pending: the wait
+                  ends (while something is pending, the loop goes on with FgStep)
      Poll         try_wait_bg_jobs: drain every report the kernel has into the four
                   parked maps, then, for a snapshot of the table, apply per pid
                   reap -> kill -> stop -> cont
@@ -28,6 +31,8 @@
      "fgcont"  a Continued report of a foreground member is ignored
      "contall" a continued member makes its job Running only once no member is stopped
      "nopoll"  fg / bg do not bring the table up to date before they resume a job
+     "nodrain" wait_fg_job returns as soon as the latest report it has read of every member says
+               exited, killed or stopped -- also when a newer report (continued) is already pending
    The properties are evaluated against the kernel's truth (kst), never against the
    table's own idea of the world.                                                 *)
 EXTENDS Naturals, Sequences, FiniteSets, TLC
@@ -35,7 +40,7 @@ EXTENDS Naturals, Sequences, FiniteSets, TLC
 CONSTANTS JobDefs,      \* sequence of [pids |-> Seq(Pid), bg |-> BOOLEAN]: the pipelines that may be launched
           MaxEvents,    \* bound on kernel status changes
           MaxBuiltins,  \* bound on fg / bg builtin uses
-          Legacy        \* subset of {"count","bsearch","stale","sets","fgcont","contall","nopoll"}
+          Legacy        \* subset of {"count","bsearch","stale","sets","fgcont","contall","nopoll","nodrain"}
 
 Pids   == UNION { {JobDefs[i].pids[k] : k \in 1..Len(JobDefs[i].pids)} : i \in 1..Len(JobDefs) }
 JobIds == 1..Len(JobDefs)
@@ -47,13 +52,15 @@ VARIABLES kst,      \* kernel: pid -> "unborn" | "running" | "stopped" | "zombie
           jobs,     \* job id -> NoJob or [gid, pids, stp, status, bg]
           reapm, stopm, contm, killm,  \* parked maps (signals.rs)
           mode,     \* "prompt" | "fg"
-          fg,       \* [gid, pids, waited, settled, status, viafg]  locals of the running wait_fg_job
+          fg,       \* [gid, pids, waited, settled, status, viafg, poll]  locals of the running wait_fg_job
+                    \* (poll: every member has settled, some stopped -- the next waitpid does not block)
           pend,     \* the fg / bg builtin in progress (between its two steps)
           tty,      \* process group the code last handed the terminal to
           known,    \* ghost: pid -> last report the shell consumed for it
           launched, \* set of indices of JobDefs launched so far
           nev, nbi, \* event / builtin counters (bounds)
-          retok,    \* ghost: every return of wait_fg_job so far happened when it was due
+          retok,    \* ghost: every return of wait_fg_job so far happened when it was due: the latest report read
+                    \* of every member says exited / killed / stopped AND, in the kernel, no member was running
           stok,     \* ghost: every returned status was the last process's
           idok,     \* ghost: every launch took the smallest unused id
           last      \* label of the last action (hidden from the fingerprint by VIEW)
@@ -62,7 +69,7 @@ vars == <<kst, krep, jobs, reapm, stopm, contm, killm, mode, fg, pend, tty, know
 view == <<kst, krep, jobs, reapm, stopm, contm, killm, mode, fg, pend, tty, known, launched, nev, nbi, retok, stok, idok>>
 
 NoPend == [kind |-> "", id |-> 0]
-NoFg == [gid |-> 0, pids |-> <<>>, waited |-> 0, settled |-> {}, status |-> "none", viafg |-> FALSE]
+NoFg == [gid |-> 0, pids |-> <<>>, waited |-> 0, settled |-> {}, status |-> "none", viafg |-> FALSE, poll |-> FALSE]
 
 Init ==
   /\ kst = [p \in Pids |-> "unborn"]
@@ -179,14 +186,16 @@ FgStep(p) ==
                     ELSE fg.settled \cup {p}
          lastp   == fg.pids[Len(fg.pids)]
          st      == IF isfg /\ p = lastp /\ e # "continued" THEN e ELSE fg.status
-         done    == /\ e # "continued"
-                    /\ IF "count" \in Legacy THEN waited >= Len(fg.pids) ELSE settled = SeqToSet(fg.pids)
          kn      == [known EXCEPT ![p] = e]
+         full    == IF "count" \in Legacy THEN waited >= Len(fg.pids) ELSE settled = SeqToSet(fg.pids)
+         stp     == {q \in settled : kn[q] = "stopped"}      \* the code's `stopped` set
+         done    == e # "continued" /\ full /\ ("nodrain" \in Legacy \/ stp = {})
+         nkst    == IF e \in {"exited", "signaled"} THEN [kst EXCEPT ![p] = "gone"] ELSE kst
          sc      == IF e = "stopped" /\ ~isfg THEN ParkStop(stopm, contm, p)
                     ELSE IF e = "continued" /\ ~isfg THEN ParkCont(stopm, contm, p)
                     ELSE <<stopm, contm>>
      IN
-     /\ kst'   = IF e \in {"exited", "signaled"} THEN [kst EXCEPT ![p] = "gone"] ELSE kst
+     /\ kst'   = nkst
      /\ krep'  = [krep EXCEPT ![p] = "none"]
      /\ known' = kn
      /\ jobs'  = IF e \in {"exited", "signaled"} /\ isfg THEN RemovePid(jobs, fg.gid, p)
@@ -196,10 +205,11 @@ FgStep(p) ==
      /\ reapm' = IF e = "exited" /\ ~isfg THEN reapm \cup {p} ELSE reapm
      /\ killm' = IF e = "signaled" /\ ~isfg THEN killm \cup {p} ELSE killm
      /\ stopm' = sc[1] /\ contm' = sc[2]
-     /\ fg'    = IF done THEN NoFg ELSE [fg EXCEPT !.waited = waited, !.settled = settled, !.status = st]
+     /\ fg'    = IF done THEN NoFg
+                 ELSE [fg EXCEPT !.waited = waited, !.settled = settled, !.status = st, !.poll = (full /\ "nodrain" \notin Legacy)]
      /\ mode'  = IF done THEN "prompt" ELSE "fg"
      /\ tty'   = IF done THEN ShellPg ELSE tty
-     /\ retok' = IF done THEN retok /\ \A q \in SeqToSet(fg.pids) : Settled(kn[q]) ELSE retok
+     /\ retok' = IF done THEN retok /\ \A q \in SeqToSet(fg.pids) : Settled(kn[q]) /\ nkst[q] # "running" ELSE retok
      /\ stok'  = IF done THEN stok /\ st = kn[lastp] ELSE stok
      /\ last'  = [a |-> "fgstep", p |-> p, e |-> e, done |-> done, st |-> st]
   /\ UNCHANGED <<pend, launched, nev, nbi, idok>>
@@ -208,6 +218,15 @@ FgEchild ==
   /\ mode = "fg" /\ ~HasChildren
   /\ mode' = "prompt" /\ fg' = NoFg /\ tty' = ShellPg /\ last' = [a |-> "fgechild"]
   /\ UNCHANGED <<kst, krep, jobs, reapm, stopm, contm, killm, pend, known, launched, nev, nbi, retok, stok, idok>>
+
+\* the non-blocking waitpid of the polling loop finds nothing: every member has exited or really is stopped
+FgPollEmpty ==
+  /\ mode = "fg" /\ fg.poll /\ \A p \in Pids : ~Reportable(p)
+  /\ mode' = "prompt" /\ fg' = NoFg /\ tty' = ShellPg
+  /\ retok' = (retok /\ \A q \in SeqToSet(fg.pids) : Settled(known[q]) /\ kst[q] # "running")
+  /\ stok'  = (stok /\ fg.status = known[fg.pids[Len(fg.pids)]])
+  /\ last'  = [a |-> "fgpoll"]
+  /\ UNCHANGED <<kst, krep, jobs, reapm, stopm, contm, killm, pend, known, launched, nev, nbi, idok>>
 
 \* ---- try_wait_bg_jobs (atomic): drain the kernel into the maps, then apply per job / pid ----
 RECURSIVE ApplyPids(_, _, _, _)
@@ -292,6 +311,7 @@ Next ==
   \/ \E d \in 1..Len(JobDefs) : Launch(d)
   \/ \E p \in Pids : KStop(p) \/ KCont(p) \/ KExit(p) \/ KKill(p) \/ FgStep(p)
   \/ FgEchild
+  \/ FgPollEmpty
   \/ Poll
   \/ \E i \in JobIds : Builtin("fg", i) \/ Builtin("bg", i)
   \/ Resume
@@ -319,7 +339,8 @@ IdsSmallestFree  == idok
 ReturnedWhenDue  == retok
 StatusOfLast     == stok
 FgDue            == \A p \in SeqToSet(fg.pids) : Settled(known[p])
-NoOverWait       == mode = "fg" => ~FgDue
+NoOverWait       == (mode = "fg" /\ ~fg.poll) => ~FgDue      \* a blocking waitpid is issued only while some member has not settled
+PollOnlyWhenDue  == (mode = "fg" /\ fg.poll) => (FgDue /\ \E q \in SeqToSet(fg.pids) : known[q] = "stopped")
 \* an event parked for a listed pid is applied by the next poll or the one after: two polls in a
 \* row with no kernel activity in between leave nothing parked for a listed pid
 NoStuckEvent     == (last.a = "poll" /\ last.R = {} /\ \A p \in Pids : ~Reportable(p)) => ParkedListed = {}
